@@ -147,6 +147,24 @@ def run(tier, seed):
                                  {"kind": "convert", "input": want[1], "context": "Normal", "expect": want[0]}, {"kind": "restart"},
                                  {"kind": "convert", "input": want[1], "context": "Normal", "expect": want[0]}]))
         expect.append(([(1, want, text, [])], [want]))
+    # the word joined to the affix is any independent word the lattice connects to it - a verb form (お読み, お帰り), not only a noun.
+    # chokan-dic expands the verb entry into its forms; the library pass gets the same forms (real conjugation) as words
+    vb = [{"reading": "よ", "stem": "読", "speech": {"Verb": {"Godan": "マ"}}}, {"reading": "かえ", "stem": "帰", "speech": {"Verb": {"Godan": "ラ"}}}]
+    nn_base = {"std": vb, "anc": [{"reading": "お", "stem": "御", "speech": {"Affix": "Prefix"}}, {"reading": "てき", "stem": "的", "speech": {"Affix": "Suffix"}}], "tankan": []}
+    vforms = harness([{"op": "dic_conj", "entry": e} for e in vb])
+    d_nn = {"alphabet": ALPHABET, "std": [[fr, fw, e["speech"]] for e, f in zip(vb, vforms) for fw, fr in f.get("ok", [])], "anc": [[e["reading"], e["stem"], e["speech"]] for e in nn_base["anc"]]}
+    for inp, want in [("およみ", ("御読み", "およみ")), ("おかえり", ("御帰り", "おかえり")), ("およみx", ("御読み", "およみ"))]:
+        rb = harness([{"op": "kkc_query", "dict": d_nn, "context": "Normal", "freq": [], "input": inp, "n": 100}])[0]
+        ci = next((i for i, c in enumerate(rb.get("candidates", [])) if affix_shape(c["nodes"][1:-1]) == want), None)
+        if ci is None:
+            continue          # the engine does not connect this pair (an edge-score matter, not this property's)
+        c0 = rb["candidates"][ci]
+        if (c0["affix"] is None) or tuple(c0["affix"]) != want:
+            res.violation(f"candidate {c0['text']!r} of {inp!r}: the compound extractor returns {c0['affix']} but the converted run is {want}", {"kind": "extractor", "dict": d_nn, "input": inp, "candidate": c0["text"]})
+        items.append((nn_base, [{"kind": "convert", "input": inp, "context": "Normal", "expect_text_at": (ci, c0["text"])}, {"kind": "confirm", "session": 0, "cid": str(ci), "text": c0["text"]},
+                                {"kind": "convert", "input": want[1], "context": "Normal", "expect": want[0]}, {"kind": "restart"},
+                                {"kind": "convert", "input": want[1], "context": "Normal", "expect": want[0]}]))
+        expect.append(([(1, want, c0["text"], [])], [want]))
     # two compounds with one reading (新車 / 真車, both しんくるま), a compound whose reading the dictionary already has (信車/しんくるま), and a
     # registered word with that reading: each confirmed compound is learned, offered, saved and still offered after a restart
     pair_base = {"std": [{"reading": "くるま", "stem": "車", "speech": {"Noun": "Common"}}, {"reading": "しんくるま", "stem": "信車", "speech": {"Noun": "Common"}}],
